@@ -241,6 +241,7 @@ def find_functions(fname: str, src: str, name: str) -> list[CFunc]:
 
 INT_TYPES = {'npy_intp', 'int', 'long', 'index_type', 'numpy::index_type', 'ssize_t', 'Py_ssize_t', 'ptrdiff_t',
              'std::ptrdiff_t', 'long long'}
+U32_TYPES = {'npy_uint32', 'uint32_t', 'std::uint32_t'}
 UNSUPPORTED_TYPES = {'unsigned', 'size_t', 'std::size_t', 'npy_uintp', 'char', 'short', 'float', 'double', 'long double'}
 
 
@@ -300,6 +301,8 @@ class Parser:
             kind = 'int'
         elif name in self.tparams:
             kind = self.tparams[name]
+        elif name in U32_TYPES:
+            kind = 'u32'
         elif name == 'bool':
             kind = 'bool'
         elif name in UNSUPPORTED_TYPES:
@@ -618,7 +621,7 @@ LEAN_KEYWORDS = {'at', 'end', 'from', 'in', 'do', 'then', 'fun', 'let', 'have', 
                  'instance', 'class', 'structure', 'def', 'theorem', 'match', 'with', 'if', 'else', 'by', 'local', 'mut',
                  'where', 'Type', 'Prop', 'Sort', 'variable', 'import', 'export', 'private', 'protected', 'macro',
                  'syntax', 'notation', 'deriving', 'extends', 'for', 'return', 'unless', 'break', 'continue', 'try',
-                 'catch', 'finally', 'using', 'calc', 'suffices', 'obtain', 'exact', 'dt', 'some', 'none'}
+                 'catch', 'finally', 'using', 'calc', 'suffices', 'obtain', 'exact', 'dt', 'some', 'none', 'min', 'max'}
 
 
 def lname(v: str) -> str:
@@ -676,6 +679,10 @@ class Translator:
                 return f'(if {t} = true then 1 else 0)'
             if k == 'T':
                 return t
+        if want == 'u32' and k == 'int' and re.fullmatch(r'\d+', t) and int(t) < 2 ** 32:
+            return t
+        if want == 'prop' and k == 'u32':
+            return f'({t} ≠ 0)'
         if want == 'T':
             if k == 'Tx':
                 self.uses_dt = True
@@ -843,13 +850,32 @@ class Translator:
             if op in ('==', '!=', '<', '<=', '>', '>='):
                 self.check_comparable(a, b, ln)
                 lop = {'==': '=', '!=': '≠', '<': '<', '<=': '≤', '>': '>', '>=': '≥'}[op]
+                if 'u32' in (a[1], b[1]):
+                    x, y = self.coerce(a, 'u32', ln), self.coerce(b, 'u32', ln)
+                    return (f'({x} {lop} {y})', 'prop')
                 if a[1] in ('prop', 'bool') or b[1] in ('prop', 'bool'):
                     if op not in ('==', '!='):
                         raise self.err(ln, 'ordering of booleans (outside the subset)')
                     x, y = self.coerce(a, 'bool', ln), self.coerce(b, 'bool', ln)
                     return (f'({x} {lop} {y})', 'prop')
                 return (f'({a[0]} {lop} {b[0]})', 'prop')
+            if op in ('>>', '<<', '&', '|', '^') :
+                if a[1] != 'u32':
+                    raise self.err(ln, f'`{op}` on a {a[1]} (bit operations are translated for 32-bit unsigned values only)')
+                if op in ('&', '|', '^'):
+                    y = self.coerce(b, 'u32', ln)
+                    lop = {'&': '&&&', '|': '|||', '^': '^^^'}[op]
+                    return (f'({a[0]} {lop} {y})', 'u32')
+                n = self.coerce(b, 'int', ln)
+                cnt = n if re.fullmatch(r'\d+', n) and int(n) < 32 else f'(Int.toNat ({n} % 32))'
+                if not re.fullmatch(r'\d+', n):
+                    self.assumptions.append(f'line {ln}: shift count `{n}` taken mod 32 (what the x86 shift does; outside [0, 32) it is undefined in C++)')
+                if op == '>>':
+                    return (f'({a[0]} >>> {cnt})', 'u32')
+                return (f'(({a[0]} <<< {cnt}) % 4294967296)', 'u32')
             if op in ('+', '-', '*', '/', '%'):
+                if 'u32' in (a[1], b[1]):
+                    raise self.err(ln, f'arithmetic `{op}` on a 32-bit unsigned value (outside the subset)')
                 kind = self.arith_kind(a, b, ln)
                 if kind == 'elem':
                     return ('()', 'elem')          # trace mode: element values are opaque
@@ -1213,7 +1239,7 @@ class Translator:
         return out
 
     def lean_type(self, kd):
-        return {'int': 'Int', 'T': 'Int', 'bool': 'Bool', 'ptr': 'Int', 'addr': 'Int'}[kd]
+        return {'int': 'Int', 'T': 'Int', 'bool': 'Bool', 'ptr': 'Int', 'addr': 'Int', 'u32': 'Nat', 'list': 'List Int'}[kd]
 
     def addr_of(self, e, env, ln):
         """the element offset designated by the lvalue `e` (`p[i]` or `*p` with `p` a pointer into the data)"""
@@ -1393,6 +1419,12 @@ TARGETS = [
          raw_params=True, c_param_names=['integral', 'y', 'x', 'w'], env_params=['y', 'x', 'w'],
          ret_kind='int', trace=dict(array='integral', dims='dims', reads=['integral.at()']),
          doc='TRACE translation (see `sum_rect`)'),
+    dict(key='roll_right', file='mahotas/features/_lbp.cpp', func='roll_right', pick='plain', lean='roll_right',
+         params=[('v', 'u32'), ('points', 'int')], ret_kind='u32',
+         doc='`npy_uint32` values are `Nat`s below 2^32; `<<` is reduced mod 2^32'),
+    dict(key='lbp_map', file='mahotas/features/_lbp.cpp', func='map', pick='plain', lean='lbp_map',
+         params=[('v', 'u32'), ('points', 'int')], ret_kind='u32',
+         doc='`npy_uint32` values are `Nat`s below 2^32'),
 ]
 
 
@@ -1475,7 +1507,7 @@ def translate_target(repo: Path, tg, known) -> dict:
             tyn = ''.join(tyw)
             ok = ((kd == 'int' and (tyn in INT_TYPES or tyn.replace('numpy::', '') in INT_TYPES or tyn in INT or tyn == 'ExtendMode'))
                   or (kd == 'T' and (tyn in tparams or (tyn == 'bool' and tg.get('bool_as_T'))))
-                  or (kd == 'bool' and tyn == 'bool'))
+                  or (kd == 'bool' and tyn == 'bool') or (kd == 'u32' and tyn in U32_TYPES))
             if not ok:
                 raise TranslationError(f'{where}: parameter `{n}` has type `{ty}`, expected a {kd}')
     else:
@@ -1605,6 +1637,9 @@ def handle_block(entries) -> list[str]:
                 li += 1
             elif kd == 'bool':
                 args.append(f'(decide (x {si} ≠ 0))')
+                si += 1
+            elif kd == 'u32':
+                args.append(f'(x {si}).toNat')
                 si += 1
             else:
                 args.append(f'(x {si})')
